@@ -43,3 +43,27 @@ def glob(pattern, text):
 from pyvc.contracts import axiom
 axiom('glob_reflexive', 'all(glob(p, p) for p in strs())',
       'a pattern matches itself (each `*` matches the `*`); assumed of the opaque glob function, checked natively on samples')
+
+
+@specfn({'s': 'str'}, 'bool', opaque=True)
+def is_wl_line(s):
+    """the (stripped) line is a libwayland message line, i.e. parse.message() decodes it (C01 says which lines those are)"""
+    from backends.libwayland_debug_output import parse
+    try:
+        parse.message(s)
+        return True
+    except RuntimeError:
+        return False
+
+
+@specfn({'s': 'str'}, 'str', opaque=True)
+def stripped(s):
+    return s.strip()
+
+
+@specfn({'codes': 'Seq(int)', 'lo': 'int', 'hi': 'int', 'code': 'int'}, 'int')
+def count_code(codes, lo, hi, code):
+    """number of entries equal to `code` in codes[lo:hi] (counted from the right end so that appends unfold once)"""
+    if hi <= lo:
+        return 0
+    return count_code(codes, lo, hi - 1, code) + (1 if codes[hi - 1] == code else 0)
